@@ -124,7 +124,7 @@ GEN_TIES = {
         "what": "the builder model's commands no longer equal the GCodeBuilder methods translated from gscrib/gcode_builder.py",
     },
     "motion": {
-        "props": {"C01", "C02", "C03", "C05", "C06", "C07", "C11", "C20"},
+        "props": {"C01", "C02", "C03", "C04", "C05", "C06", "C07", "C11", "C20"},
         "gen": "gen_motion.py", "gen_file": "GscribModel/Gen/MotionSrc.lean",
         "gens": [("gen_code_table.py", "GscribModel/Gen/CodeTable.lean"), ("gen_state.py", "GscribModel/Gen/StateSrc.lean"),
                  ("gen_point.py", "GscribModel/Gen/PointSrc.lean"), ("gen_builder.py", "GscribModel/Gen/BuilderSrc.lean"),
